@@ -69,7 +69,7 @@ def units(tier, seed):
     per = 65536 // nchunks
     for i in range(nchunks):
         us.append(('u', i * per, (i + 1) * per, step))
-    for i in range(12 if tier == 'quick' else 96):
+    for i in range(12 if tier == 'quick' else 768):
         us.append(('random', i))
     return us
 
